@@ -5,6 +5,7 @@ Request:
 Response (one line):
   bad-request
   panic <site>
+  panic imperative-model-disagrees      (self-check of the two compiler models failed)
   ok scoped=<0|1> | main <tok>* | block:<hexname> <tok>* | … | component:<hexname> <tok>* | …
      | filter <hex>* | test <hex>* | function <hex>* | include <hex>* | component_calls <hex>*
      | topblock <hex>*
@@ -13,6 +14,7 @@ sorted by name (same); tables sorted, without repetitions; a chunk token is `Kin
 a span) or `Kind:arg@` (added without).
 -/
 import TeraModel.Model.Compiler
+import TeraModel.Model.CompilerImp
 import TeraModel.Model.AstWire
 import TeraModel.Model.InstrWire
 open Tera Tera.Compiler
@@ -41,10 +43,21 @@ def sortNames (l : List String) : List String :=
 def section_ (label : String) (toks : List String) : String :=
   String.intercalate " " (label :: toks)
 
+/-- self-check: the mutable-pass model (Model/CompilerImp.lean) must give the same chunk (T6 proves
+it for scoped ASTs; here it is run on every case, scoped or not) -/
+def impAgrees (ns : List Node) (expected : Code) : Bool :=
+  match Imp.compileNodes ns Imp.Comp.new with
+  | .ok r => showCode r.chunk == showCode expected && r.bodies.isEmpty && r.depth == 0
+  | .error _ => false
+
 def respond (t : Template) : String :=
   match compileTemplate t with
   | .error site => "panic " ++ site
   | .ok c =>
+    if !(impAgrees t.nodes c.main
+          && t.componentDefinitions.all fun cd => impAgrees cd.body (nodesCode 0 none cd.body)) then
+      "panic imperative-model-disagrees"
+    else
     let hex := InstrWire.hexOfName
     let secs :=
       [s!"ok scoped={if templateScoped t then 1 else 0}", section_ "main" (showCode c.main)]
